@@ -80,6 +80,27 @@ Proof.
   induction a as [| | | | |a0 x IHx y IHy| | | | |]; intro w; destruct w; simpl; try reflexivity; auto.
   rewrite IHx, IHy. reflexivity.
 Qed.
+
+Lemma ty_shape_tmap : forall t u, ty_shape_eqb (tmap f t) (tmap f u) = ty_shape_eqb t u.
+Proof.
+  induction t as [a p|a l IHl r IHr|a x IHx|a l IHl r IHr]; intro u; destruct u; simpl; try reflexivity; auto.
+  - rewrite IHl, IHr. reflexivity.
+  - rewrite IHl, IHr. reflexivity.
+Qed.
+
+Lemma type_of_gmap : forall v, type_of (g v) = tmap f (type_of v).
+Proof.
+  induction v as [| | | | |a x IHx y IHy|a t|a w IHw|a w IHw rt|a lt w IHw|]; simpl; try reflexivity.
+  - rewrite IHx, IHy. reflexivity.
+  - rewrite IHw. reflexivity.
+  - rewrite IHw. reflexivity.
+  - rewrite IHw. reflexivity.
+Qed.
+
+Lemma compare_checked_gmap : forall a b, compare_checked (g a) (g b) = compare_checked a b.
+Proof.
+  intros a b. unfold compare_checked. rewrite !type_of_gmap, ty_shape_tmap, vcmp_gmap. reflexivity.
+Qed.
 End Nat.
 
 Section Nat2.
@@ -174,7 +195,7 @@ Proof.
   - destruct s as [|x [|y s]]; reflexivity.
   - destruct s as [|v s]; [reflexivity|]. destruct v; reflexivity.
   - destruct s as [|x [|y s]]; try reflexivity.
-    simpl. rewrite vcmp_gmap. destruct (vcmp x y); reflexivity.
+    simpl. rewrite compare_checked_gmap. destruct (compare_checked x y); reflexivity.
   - destruct s as [|v s]; [reflexivity|]. simpl. rewrite to_mich_gmap. reflexivity.
   - destruct s as [|v s]; reflexivity.
   - destruct s as [|x [|y s]]; reflexivity.
